@@ -160,6 +160,7 @@ class Item:
         self.start = start
         self.end = self.toks[-1].end
         self.edits = []
+        self.rules = []     # (old token texts, new text) of the replace ops seen so far
 
     # -- helpers over a (sub-)item token range -------------------------------
     def sub_range(self, anchor):
@@ -259,6 +260,20 @@ class Item:
                         break
                     j += 1
                 bound = self.src[self.toks[k + 1].start:self.toks[j - 1].end]
+                # replace ops already applied inside the bound move with it
+                lo, hi = t.start, self.toks[j - 1].end
+                self.edits = [e for e in self.edits if not (lo <= e.start and e.end <= hi)]
+                for oldt, new in self.rules:
+                    bt = rslex.lex(bound)
+                    out, q = [], 0
+                    while q < len(bt):
+                        if [x.text for x in bt[q:q + len(oldt)]] == oldt:
+                            out.append(new)
+                            q += len(oldt)
+                        else:
+                            out.append(bt[q].text)
+                            q += 1
+                    bound = " ".join(x for x in out if x)
                 g = f"ImplArg{idx}"
                 idx += 1
                 gens.append(f"{g}: {bound}")
@@ -387,6 +402,7 @@ class Item:
     def op_replace(self, sub, old, new):
         a, b, body = self.sub_range(sub)
         oldt = rslex.token_texts(old)
+        self.rules.append((oldt, new))
         n = 0
         k = a
         while k + len(oldt) <= b + 1:
